@@ -19,6 +19,10 @@ def strchr_sites(ctx, unit_filter=None):
     return out
 
 
+def fold_char(u, e):
+    return Folder(u).fold(e)
+
+
 def check_site(ctx, rule, k, u, f, call):
     """Returns True when an obligation was generated (digit use)."""
     F = ctx.facts(f)
@@ -39,6 +43,8 @@ def check_site(ctx, rule, k, u, f, call):
                 n = None
     elif a0.get('kind') == 'StringLiteral':
         n = len(bytes(a0.get('value', '""')[1:-1], 'utf-8').decode('unicode_escape'))
+    if n is None and fold_char(u, args[1]) is not None:
+        return False         # strchr(<input>, <constant char>): a search in the input, not a lookup in a digit set
     ck = keys.key(args[1])
     # is the character known non-NUL when the lookup is made?
     fs = F.facts_at_ast(call) or frozenset()
